@@ -29,11 +29,11 @@ def gen(tier, rng):
                         boxes += [(Q * sw - 1, 0, 1, Q * sh), (1, 1, Q * sw - 1, Q * sh - 1), (Q, 0, Q * (sw - 1), Q * sh)]
                     boxes += [(Q * sw - 2, Q * sh - 3 if sh > 0 and Q * sh > 3 else 0, 2, 3 if Q * sh >= 3 else Q * sh), (0, 0, 1, 1),
                               (0, 0, Q * sw, 1), (2, 0, Q * sw - 2, Q * sh)]
-                    box = boxes[n % len(boxes)]
+                    box = rz.pick(n, 132, boxes)
                     lay = [{"k": "image_ref", "guard": 1}, {"k": "typed_ref", "guard": 1}, {"k": "crop_ref", "pad": [0, 1, 0, 0], "guard": 1},
                            {"k": "image_ref", "guard": 2}][n % 4]
                     typed = lay["k"].startswith("typed")
-                    cases.append(rz.resize_case(pt, sw, sh, dw, dh, alg="nearest", alpha=(n % 3 == 0), box=box, Q=Q, cpu=rz.CPUS[n % 3],
+                    cases.append(rz.resize_case(pt, sw, sh, dw, dh, alg="nearest", alpha=(n % 3 == 0), box=box, Q=Q, cpu=rz.pick(n, 130, rz.CPUS),
                                                 src_c={"g": "data", "v": tags(pt, sw, sh, rng)}, src_lay=lay,
                                                 dst_lay={"k": "typed", "guard": 1} if typed else {"k": "slice", "guard": 1},
                                                 api="typed" if typed else "dyn", log=("src", "dst"),
@@ -42,7 +42,7 @@ def gen(tier, rng):
     for pt in ("U8", "U16x3", "F32x4", "U8x4", "I32"):
         for (sw, sh, dw, dh) in ((200, 1, 1, 1), (1, 200, 3, 1), (1, 1, 97, 2), (3, 2, 120, 1), (255, 1, 2, 1), (2, 1, 255, 1)):
             n += 1
-            cases.append(rz.resize_case(pt, sw, sh, dw, dh, alg="nearest", alpha=False, cpu=rz.CPUS[n % 3],
+            cases.append(rz.resize_case(pt, sw, sh, dw, dh, alg="nearest", alpha=False, cpu=rz.pick(n, 131, rz.CPUS),
                                         src_c={"g": "data", "v": tags(pt, sw, sh, rng)}, src_lay={"k": "image_ref", "guard": 1},
                                         dst_lay={"k": "slice", "guard": 1}, log=("src", "dst"),
                                         chk=("pipeline", "ret_ok", "near", "outside", "srcsame")))
